@@ -403,6 +403,29 @@ Fixpoint run (w : writer) (l : list ev) : writer * list out :=
   end.
 Definition run_state (w : writer) (l : list ev) : writer := fold_left (fun s e => fst (step s e)) l w.
 
+(* the samples recorded for an instance (none if there is no record) *)
+Definition samples_of (h : Z) (l : list inst) : list Z :=
+  match find_inst h l with Some s => i_samples s | None => [] end.
+
+(* the resource-limit rule of write_w_timestamp, stated on the state before the call:
+   a new instance when max_instances records exist, or max_samples_per_instance samples of the
+   instance (the test is skipped when KEEP_LAST(depth <= limit) already guarantees it), or
+   max_samples samples in total *)
+Definition would_exceed (q : qos) (h : Z) (l : list inst) : bool :=
+  (negb (has_inst h l) && negb (len_lt (zlen l) (q_max_instances q))) ||
+  match q_mspi q with
+  | Some m =>
+    match q_hist q with
+    | KeepLast d => if wrap_i32 d <=? m then false else usize_of_i32 m <=? zlen (samples_of h l)
+    | KeepAll => usize_of_i32 m <=? zlen (samples_of h l)
+    end
+  | None => false
+  end ||
+  match q_max_samples q with
+  | Some ms => usize_of_i32 ms <=? total_samples l
+  | None => false
+  end.
+
 (* slots of the ALIVE changes of the RTPS history (what a late-joining TRANSIENT_LOCAL reader is sent) *)
 Definition alive_slots (w : writer) : list Z :=
   map c_slot (filter (fun c => c_kind c =? K_ALIVE) (w_changes w)).
